@@ -1,12 +1,617 @@
 /-
   C08 — error values propagate through operators and can be trapped.
+
+  Two error channels exist in hotxlfp and in the model: error VALUES (`Value.err e`, returned by
+  the operators and by most builtins) and RAISED exceptions (`Exn`: an error literal through
+  `_throw_error`, an unknown name, a `TypeError` inside an operator).  A raise aborts the whole
+  formula; `call_function` converts a raise inside a function body into the call's value.
+
+  `outcome env x` is `(evalExpr env x log).1` for every `log` (`outcome_eq`): the event log is
+  write-only, so what an expression evaluates to does not depend on it.
 -/
 import HotXL.Model.Eval
+import HotXL.Lemmas.ErrorFlow
 
 namespace HotXL.Props.C08
-open HotXL HotXL.Ops HotXL.Eval
+open HotXL HotXL.Ops HotXL.Eval HotXL.Syntax HotXL.ErrorFlow
+
+/-! ## 1. one operator -/
 
 /-- unary minus returns an error operand -/
 theorem neg_error (e : Err) : evalNeg (.err e) = .ok (.err e) := rfl
+
+/-- each of the eleven binary operators (`+ - * / & > < >= <= = <>`) with an error as LEFT operand
+    evaluates to that error, whatever the right operand is (number, text, blank, another error,
+    an array, a foreign object) -/
+theorem binop_left_error (op : BinOp) (e : Err) (v : Value) :
+    binOfOp op (.err e) v = .ok (.err e) :=
+  binOfOp_left_err op e v
+
+/-- each binary operator with an error as RIGHT operand evaluates to that error when the left
+    operand is not an error itself (any other value, arrays and foreign objects included) -/
+theorem binop_right_error (op : BinOp) (e : Err) (v : Value) (h : isErr v = none) :
+    binOfOp op v (.err e) = .ok (.err e) :=
+  binOfOp_right_err op e v h
+
+example : isErr (.arr [.num (.int 1), .str []]) = none ∧ isErr (.other "object") = none ∧ isErr .blank = none :=
+  ⟨rfl, rfl, rfl⟩
+
+/-- when both operands are errors the left one is the result -/
+theorem binop_both_errors (op : BinOp) (e f : Err) : binOfOp op (.err e) (.err f) = .ok (.err e) :=
+  binOfOp_left_err op e _
+
+/-- the three Python routines behind the operators — `evaluate_arithmetic` (at every array nesting
+    budget), `evaluate_logic`, the `&` reduction — check for an error operand first, left operand
+    first -/
+theorem operator_routines_check_errors_first (e : Err) (v : Value) :
+    (∀ fuel op, evalArith fuel op (.err e) v = .ok (.err e)) ∧
+    (∀ op, evalLogic op (.err e) v = .ok (.err e)) ∧
+    evalAmp (.err e) v = .ok (.err e) ∧
+    (isErr v = none →
+      (∀ fuel op, evalArith fuel op v (.err e) = .ok (.err e)) ∧
+      (∀ op, evalLogic op v (.err e) = .ok (.err e)) ∧
+      evalAmp v (.err e) = .ok (.err e)) :=
+  ⟨fun fuel op => evalArith_left_err fuel op e v, fun op => evalLogic_left_err op e v, evalAmp_left_err e v,
+   fun h => ⟨fun fuel op => evalArith_right_err fuel op e v h, fun op => evalLogic_right_err op e v h,
+             evalAmp_right_err e v h⟩⟩
+
+/-- `outcome` is the first component of `evalExpr` from ANY log; the second component is the log
+    with the events of the evaluation appended -/
+theorem outcome_eq (env : Env) (x : Expr) (log : Log) :
+    (evalExpr env x log).1 = outcome env x ∧ (evalExpr env x log).2 = log ++ (evalExpr env x []).2 :=
+  ⟨evalExpr_fst env x log, evalExpr_snd env x log⟩
+
+/-- an operator node whose left operand evaluated to an error value has that value, provided the
+    right operand evaluates at all (the events of both operands are logged) -/
+theorem bin_node_left_error (env : Env) (op : BinOp) (l r : Expr) (e : Err) (rv : Value) (log log1 log2 : Log)
+    (hl : evalExpr env l log = (.ok (.err e), log1)) (hr : evalExpr env r log1 = (.ok rv, log2)) :
+    evalExpr env (.bin op l r) log = (.ok (.err e), log2) := by
+  rw [evalExpr, hl]; simp only []; rw [hr]; simp only [binOfOp_left_err]
+
+/-- an operator node whose right operand evaluated to an error value and whose left operand
+    evaluated to a non-error value has the right operand's error as value -/
+theorem bin_node_right_error (env : Env) (op : BinOp) (l r : Expr) (e : Err) (lv : Value) (log log1 log2 : Log)
+    (hl : evalExpr env l log = (.ok lv, log1)) (hne : isErr lv = none)
+    (hr : evalExpr env r log1 = (.ok (.err e), log2)) :
+    evalExpr env (.bin op l r) log = (.ok (.err e), log2) := by
+  rw [evalExpr, hl]; simp only []; rw [hr]; simp only [binOfOp_right_err _ _ _ hne]
+
+/-- a unary-minus node over an error value has that value -/
+theorem neg_node_error (env : Env) (x : Expr) (e : Err) (log log1 : Log)
+    (h : evalExpr env x log = (.ok (.err e), log1)) :
+    evalExpr env (.neg x) log = (.ok (.err e), log1) := by
+  rw [evalExpr, h]; rfl
+
+/-! ## 2. operator trees of any depth -/
+
+/-- PATH FORM.  Put an expression `x` that evaluates to the error value `e` anywhere below
+    operators (`c` is the path: unary minus and binary operators, at any depth, any of the eleven
+    operators at each step).  If at each binary node on the path the sibling operand evaluates to a
+    value, and each sibling that is a LEFT operand to a non-error value (else that one would win),
+    the whole expression evaluates to `e`, from every log. -/
+theorem path_propagates (env : Env) (c : Ctx) (x : Expr) (e : Err)
+    (hc : c.Carries env) (hx : outcome env x = .ok (.err e)) (log : Log) :
+    (evalExpr env (c.fill x) log).1 = .ok (.err e) := by
+  rw [evalExpr_fst]; exact carries_ctx env x e hx c hc
+
+/-- TREE FORM.  `t` is any tree of unary minus / binary operators over arbitrary leaf expressions.
+    Assume the tree is regular: every subtree none of whose leaves evaluates to an error value
+    evaluates to a non-error value (the error-free parts "cannot fail on their own": no `1/0`, no
+    `-"a"` there; this also forces every leaf to evaluate to a value).  Then, if some leaf
+    evaluates to an error value, the whole tree evaluates to the error of the LEFTMOST such leaf.
+    (Nothing is claimed when no leaf is an error.) -/
+theorem tree_propagates (env : Env) (t : OpTree)
+    (hreg : ∀ s ∈ t.subtrees, s.firstErr env = none → ∃ v, outcome env s.toExpr = .ok v ∧ isErr v = none)
+    (e : Err) (h : t.firstErr env = some e) (log : Log) :
+    (evalExpr env t.toExpr log).1 = .ok (.err e) := by
+  rw [evalExpr_fst]; exact tree_firstErr env t hreg e h
+
+/-- the same with the leaf values spelled out: if the leaves, evaluated left to right, give the
+    values `vs`, the result is `firstError vs` (the first error in the list) -/
+theorem tree_propagates_values (env : Env) (t : OpTree) (vs : List Value)
+    (hvs : outcomes env t.leaves = .ok vs)
+    (hreg : ∀ s ∈ t.subtrees, s.firstErr env = none → ∃ v, outcome env s.toExpr = .ok v ∧ isErr v = none)
+    (e : Err) (h : Fn.firstError vs = some e) (log : Log) :
+    (evalExpr env t.toExpr log).1 = .ok (.err e) := by
+  apply tree_propagates env t hreg e _ log
+  rw [OpTree.firstErr, findSome_leafErr_eq_firstError env t.leaves vs hvs, h]
+
+/-- the regularity hypothesis cannot be dropped: "all leaves evaluate to values ⇒ the leftmost
+    error leaf is the result" is false as a statement about arbitrary operator trees -/
+def TreePropagatesUnconditional : Prop :=
+  ∀ (env : Env) (t : OpTree) (e : Err), (∀ x ∈ t.leaves, ∃ v, outcome env x = .ok v) →
+    t.firstErr env = some e → outcome env t.toExpr = .ok (.err e)
+
+/-- `(1/0) + NA()` read as a tree over the three leaves `1`, `0`, `NA()`: all leaves evaluate to
+    values, the leftmost (only) error leaf is `#N/A`, the result is `#DIV/0!` — produced by an
+    operator to its left.  (With `1/0` taken as ONE leaf the tree is regular and
+    `tree_propagates` gives `#DIV/0!`.) -/
+theorem tree_propagates_needs_regularity : ¬ TreePropagatesUnconditional := by
+  intro h
+  have hl : ∀ x ∈ (OpTree.bin .add (.bin .div (.leaf one) (.leaf zero)) (.leaf naCall)).leaves,
+      ∃ v, outcome Env.empty x = .ok v := by
+    intro x hx
+    simp only [OpTree.leaves, List.cons_append, List.nil_append, List.mem_cons, List.not_mem_nil, or_false] at hx
+    rcases hx with rfl | rfl | rfl
+    · exact ⟨_, rfl⟩
+    · exact ⟨_, rfl⟩
+    · exact ⟨_, outcome_naCall⟩
+  have hf : (OpTree.bin .add (.bin .div (.leaf one) (.leaf zero)) (.leaf naCall)).firstErr Env.empty = some .na := by
+    simp [OpTree.firstErr, OpTree.leaves, List.findSome?, leafErr, outcome_naCall, one, zero, evalNumLit]
+  have := h Env.empty _ .na hl hf
+  have h2 : outcome Env.empty (OpTree.bin .add (.bin .div (.leaf one) (.leaf zero)) (.leaf naCall)).toExpr
+      = .ok (.err .div0) := by
+    show outcome Env.empty (.bin .add oneByZero naCall) = _
+    rw [outcome_bin, outcome_oneByZero, outcome_naCall]
+    exact binOfOp_left_err .add .div0 _
+  rw [h2] at this
+  cases this
+
+/-- the other way regularity can fail: in `NA() + (-"a")` the error-free part `-"a"` raises a
+    `TypeError`, so the formula aborts (reported as `#ERROR!`) although its left operand is `#N/A` -/
+example : outcome Env.empty (.bin .add naCall (.neg (.str ['a']))) = .error (.py "#ERROR!") := by
+  rw [outcome_bin, outcome_naCall, outcome_neg, outcome_str]; rfl
+
+/-- non-vacuity of `tree_propagates`: `-( (1/0) + 2 ) = NA()` with `1/0`, `2`, `NA()` as leaves is
+    regular, its leftmost error leaf is `#DIV/0!`, and that is its value -/
+example : (evalExpr Env.empty (.bin .eq (.neg (.bin .add oneByZero two)) naCall) []).1 = .ok (.err .div0) := by
+  have hreg : ∀ s ∈ (OpTree.bin .eq (.neg (.bin .add (.leaf oneByZero) (.leaf two))) (.leaf naCall)).subtrees,
+      s.firstErr Env.empty = none → ∃ v, outcome Env.empty s.toExpr = .ok v ∧ isErr v = none := by
+    intro s hs
+    simp only [OpTree.subtrees, List.cons_append, List.nil_append, List.mem_cons, List.not_mem_nil, or_false] at hs
+    rcases hs with rfl | rfl | rfl | rfl | rfl | rfl <;>
+      simp [OpTree.firstErr, OpTree.leaves, leafErr, outcome_oneByZero, outcome_naCall, two,
+        OpTree.toExpr, isErr, evalNumLit]
+  exact tree_propagates Env.empty
+    (.bin .eq (.neg (.bin .add (.leaf oneByZero) (.leaf two))) (.leaf naCall)) hreg .div0
+    (by simp [OpTree.firstErr, OpTree.leaves, leafErr, outcome_oneByZero]) []
+
+/-- non-vacuity of `path_propagates`: `2 * -( □ & "a")` with `NA()` in the hole -/
+example : (evalExpr Env.empty (.bin .mul two (.neg (.bin .amp naCall (.str ['a'])))) []).1 = .ok (.err .na) :=
+  path_propagates Env.empty (.binR .mul two (.neg (.binL .amp .hole (.str ['a'])))) naCall .na
+    ⟨⟨_, rfl, rfl⟩, ⟨_, rfl⟩, trivial⟩ outcome_naCall []
+
+/-! ## 3. raised exceptions abort the formula; error literals raise -/
+
+/-- an error literal does not evaluate to a value: `_throw_error` raises `from_message(text)` -/
+theorem literal_aborts (env : Env) (t : List Char) (log : Log) :
+    evalExpr env (.errLit t) log = (.error (throwErrorLit t), log) := rfl
+
+/-- once a sub-evaluation raises `ex`, every enclosing unary minus, binary operator, function call
+    and array node returns `ex` (`c` is the path from the root down to the sub-expression, any depth),
+    provided the evaluation gets there: everything evaluated earlier (left operands, earlier
+    arguments) evaluates normally.  The resulting log is the log at the raise — nothing that comes
+    later in evaluation order (right operands, later arguments, the enclosing calls) leaves an event. -/
+theorem abort_propagates (env : Env) (c : Ctx) (x : Expr) (ex : Exn)
+    (hc : c.Reaches env) (hx : outcome env x = .error ex) (log : Log) :
+    evalExpr env (c.fill x) log = (.error ex, (evalExpr env x (c.entryLog env log)).2) :=
+  abort_ctx env x ex hx c hc log
+
+/-- a raise in the left operand is the result of a binary node and the right operand is not
+    evaluated (the log is the one the left operand left) -/
+theorem abort_left_skips_right (env : Env) (op : BinOp) (l r : Expr) (ex : Exn) (log log1 : Log)
+    (h : evalExpr env l log = (.error ex, log1)) : evalExpr env (.bin op l r) log = (.error ex, log1) :=
+  bin_abort_left op r h
+
+/-- a formula in which the first sub-expression (in evaluation order) that does not evaluate
+    normally is an error literal aborts with that literal's error, and the log stops there -/
+theorem literal_aborts_formula (env : Env) (c : Ctx) (t : List Char) (hc : c.Reaches env) (log : Log) :
+    evalExpr env (c.fill (.errLit t)) log = (.error (throwErrorLit t), c.entryLog env log) :=
+  abort_ctx env (.errLit t) (throwErrorLit t) rfl c hc log
+
+/-- non-vacuity: `IFERROR(1 + #N/A, 2)` — the literal sits below `+` in the first argument of a call -/
+example : evalExpr Env.empty (.call "IFERROR".toList .flat [.bin .add one (.errLit "#N/A".toList), two] []) []
+    = (.error (.xl .na), []) := by
+  have h := literal_aborts_formula Env.empty (.callA "IFERROR".toList .flat [] (.binR .add one .hole) [two] [])
+    "#N/A".toList ⟨⟨[], rfl⟩, ⟨_, rfl⟩, trivial⟩ []
+  have hna : throwErrorLit "#N/A".toList = .xl .na := throwErrorLit_code .na
+  rw [hna] at h
+  exact h
+
+/-- the literal text of each code raises that code (the nine texts of the generated table) -/
+theorem literal_of_code (e : Err) : throwErrorLit e.code.toList = .xl e :=
+  throwErrorLit_code e
+
+example : throwErrorLit "#N/A".toList = .xl .na ∧ throwErrorLit "#DIV/0!".toList = .xl .div0 ∧
+    throwErrorLit "#NULL!".toList = .xl .null ∧ throwErrorLit "#NUM!".toList = .xl .num ∧
+    throwErrorLit "#REF!".toList = .xl .ref ∧ throwErrorLit "#VALUE!".toList = .xl .value ∧
+    throwErrorLit "#NAME?".toList = .xl .name ∧ throwErrorLit "#ERROR!".toList = .xl .error :=
+  ⟨literal_of_code .na, literal_of_code .div0, literal_of_code .null, literal_of_code .num,
+   literal_of_code .ref, literal_of_code .value, literal_of_code .name, literal_of_code .error⟩
+
+/-- any other literal text raises `#ERROR!` -/
+theorem literal_of_other_text (t : List Char) (h : ∀ e : Err, String.ofList t ≠ e.code) :
+    throwErrorLit t = .xl .error := by
+  unfold throwErrorLit
+  rw [(fromMessage_eq_iff (String.ofList t) .error).2 (Or.inr ⟨rfl, h⟩)]
+
+example : ∀ e : Err, String.ofList "#FOO!".toList ≠ e.code := by
+  intro e; cases e <;> decide
+
+/-! ## 4. the top level -/
+
+/-- `from_message` of a canonical code is that code's singleton, of any other message `#ERROR!` -/
+theorem fromMessage_spec (m : String) (e : Err) :
+    fromMessage m = e ↔ (m = e.code ∨ (e = .error ∧ ∀ e' : Err, m ≠ e'.code)) :=
+  fromMessage_eq_iff m e
+
+/-- a message that is not a key of the (generated) table gives `#ERROR!` -/
+theorem fromMessage_default (m : String) (h : ∀ p ∈ Generated.errorTable, p.1 ≠ m) :
+    fromMessage m = .error :=
+  ErrorFlow.fromMessage_default m h
+
+example : ∀ p ∈ Generated.errorTable, p.1 ≠ "boom" := by decide
+
+/-- the generated table, the generated `str()` of the nine singletons and the canonical codes
+    agree: `str(e)` is the code and `from_message(code)` is `e` again -/
+theorem canonical_codes (e : Err) :
+    singletonMessage e = e.code ∧ fromMessage e.code = e ∧ fromMessage (singletonMessage e) = e :=
+  ⟨singletonMessage_eq_code e, fromMessage_code e, fromMessage_singleton e⟩
+
+/-- an error VALUE that reaches the top is reported under `error` (its own code), `result` empty -/
+theorem top_level_value (e : Err) : finish (.ok (.err e)) = { result := none, error := some e } := by
+  simp only [finish, fromMessage_singleton]
+
+/-- a RAISED error singleton that reaches the top is reported the same way -/
+theorem top_level_raised (e : Err) : finish (.error (.xl e)) = { result := none, error := some e } := by
+  simp only [finish, toErr_xl]
+
+/-- any other exception is reported as `from_message(str(exception))`: `#ERROR!` unless the text
+    happens to be a code -/
+theorem top_level_exception (m : String) :
+    finish (.error (.py m)) = { result := none, error := some (fromMessage m) } := rfl
+
+/-- a value and a raise of the same error give the same record -/
+theorem top_level (e : Err) :
+    finish (.ok (.err e)) = { result := none, error := some e } ∧ finish (.error (.xl e)) = finish (.ok (.err e)) := by
+  rw [top_level_value, top_level_raised]; exact ⟨rfl, rfl⟩
+
+/-- the record of a non-empty formula that parses is `finish` of its outcome -/
+theorem parseTop_record (env : Env) (s : List Char) (x : Expr)
+    (hs : s ≠ []) (hp : parseFormula s = .ok x) : (parseTop env s).1 = finish (outcome env x) := by
+  unfold parseTop
+  have : s.isEmpty = false := by cases s <;> simp_all
+  simp only [this, hp]
+  rfl
+
+/-- the record and the event log of a non-empty formula that parses -/
+theorem parseTop_eq (env : Env) (s : List Char) (x : Expr)
+    (hs : s ≠ []) (hp : parseFormula s = .ok x) :
+    parseTop env s = (finish (evalExpr env x []).1, (evalExpr env x []).2) := by
+  unfold parseTop
+  have : s.isEmpty = false := by cases s <;> simp_all
+  simp only [this, hp]
+  rfl
+
+/-- `Parser.parse` on a formula that evaluates to the error value `e`, or aborts with the raised
+    singleton `e`: `{'result': None, 'error': code of e}` -/
+theorem parse_reports_error (env : Env) (s : List Char) (x : Expr) (e : Err)
+    (hs : s ≠ []) (hp : parseFormula s = .ok x)
+    (h : outcome env x = .ok (.err e) ∨ outcome env x = .error (.xl e)) :
+    (parseTop env s).1 = { result := none, error := some e } := by
+  rw [parseTop_record env s x hs hp]
+  rcases h with h | h <;> rw [h]
+  · exact top_level_value e
+  · exact top_level_raised e
+
+/-! ## 5. the trapping builtins on values -/
+
+open HotXL.Fn.Logic HotXL.Fn.Info
+
+/-- ISERROR(v) is TRUE exactly for the error values -/
+theorem iserror_spec (v : Value) : ISERROR [v] = .ok (.bool (isErr v).isSome) := by
+  cases v <;> rfl
+
+/-- ISNA(v) is TRUE exactly for `#N/A` -/
+theorem isna_spec (v : Value) : ISNA [v] = .ok (.bool (decide (isErr v = some .na))) := by
+  cases v with
+  | err e => cases e <;> rfl
+  | _ => rfl
+
+/-- ISERR(v) is TRUE exactly for the error values other than `#N/A` -/
+theorem iserr_spec (v : Value) :
+    ISERR [v] = .ok (.bool ((isErr v).isSome && !decide (isErr v = some .na))) := by
+  cases v with
+  | err e => cases e <;> rfl
+  | _ => rfl
+
+/-- ISERROR = ISERR or ISNA, on every value -/
+theorem iserror_split (v : Value) :
+    ∃ a b c, ISERROR [v] = .ok (.bool a) ∧ ISERR [v] = .ok (.bool b) ∧ ISNA [v] = .ok (.bool c) ∧
+      a = (b || c) := by
+  refine ⟨_, _, _, iserror_spec v, iserr_spec v, isna_spec v, ?_⟩
+  cases v with
+  | err e => cases e <;> rfl
+  | _ => rfl
+
+/-- IFERROR(x, y) is `y` when `x` is an error value and `x` otherwise -/
+theorem iferror_spec (x y : Value) :
+    IFERROR [x, y] = .ok (match isErr x with | some _ => y | none => x) := by
+  cases x <;> rfl
+
+/-- IFERROR(x, y) = y for an error `x`; = x for every other `x` (so it is `y` exactly when `x` is
+    an error, up to the coincidence `x = y`) -/
+theorem iferror_iff (x y : Value) :
+    (isErr x ≠ none → IFERROR [x, y] = .ok y) ∧ (isErr x = none → IFERROR [x, y] = .ok x) := by
+  rw [iferror_spec]
+  constructor <;> intro h
+  · cases hx : isErr x with
+    | none => exact absurd hx h
+    | some e => rfl
+  · rw [h]
+
+/-- IFNA(x, y) is `y` when `x` is `#N/A` and `x` otherwise (other errors pass through) -/
+theorem ifna_spec (x y : Value) :
+    IFNA [x, y] = .ok (if isErr x = some .na then y else x) := by
+  cases x with
+  | err e => cases e <;> rfl
+  | _ => rfl
+
+/-- the number ERROR.TYPE gives to an error (`#ERROR!` is not in its table: `#N/A`) -/
+def errorTypeValue : Err → Value
+  | .null => .num (.int 1) | .div0 => .num (.int 2) | .value => .num (.int 3) | .ref => .num (.int 4)
+  | .name => .num (.int 5) | .num => .num (.int 6) | .na => .num (.int 7) | .data => .num (.int 8)
+  | .error => .err .na
+
+/-- ERROR.TYPE on the eight codes of its table gives 1…8 (`#NULL! #DIV/0! #VALUE! #REF! #NAME? #NUM!
+    #N/A #GETTING_DATA`), `#N/A` on `#ERROR!` -/
+theorem error_type_spec (e : Err) : ERROR_TYPE [.err e] = .ok (errorTypeValue e) := by
+  cases e <;> rfl
+
+/-- ERROR.TYPE of a value that is not an error (and not a list, which is unhashable) is `#N/A` -/
+theorem error_type_non_error (v : Value) (h : isErr v = none) (ha : ∀ xs, v ≠ .arr xs) :
+    ERROR_TYPE [v] = .ok (.err .na) := by
+  cases v with
+  | err e => cases h
+  | arr xs => exact absurd rfl (ha xs)
+  | _ => rfl
+
+/-! ## 6. the traps see every error value, also those produced by calls -/
+
+/-- the six trapping builtins are in the (generated) registry -/
+theorem traps_registered : ∀ n ∈ trapNames, Builtins.isRegistered (String.ofList n) = true := by
+  decide
+
+/-- whichever way the body of the function that a call resolves to produces an error — RETURNS the
+    error value, RAISES the singleton, RAISES any other exception with message `m` (then
+    `e = from_message m`) — `call_function` returns it as a VALUE and the call is logged; for a
+    custom host function or a registered builtin alike (`resolve`) -/
+theorem call_error_is_value (env : Env) (name : List Char) (f : HostFn) (args : List Value) (e : Err)
+    (hf : resolve env name = some f) (he : yieldsErr (f args) = some e) (log : Log) :
+    callFunction env name args log = (.ok (.err e), log ++ [.fn name args]) :=
+  callFunction_error_is_value hf he log
+
+/-- `resolve` is how `callFunction` finds the function: an instance function first, else a
+    registered builtin (its model, a raise of the builtin being a raise of the body) -/
+theorem resolve_spec (env : Env) (name : List Char) :
+    (∀ f, env.custom name = some f → resolve env name = some f) ∧
+    (∀ b, env.custom name = none → Builtins.isRegistered (String.ofList name) = true →
+      Builtins.model? (String.ofList name) = some b →
+      resolve env name = some (fun a => match b a with | .ok v => .ok v | .error e => .error (.xl e))) ∧
+    (∀ args log, callFunction env name args log =
+      match resolve env name with
+      | none => (.error (.xl .name), log)
+      | some f =>
+        match f args with
+        | .ok v => (.ok v, log ++ [.fn name args])
+        | .error .unmodelled => (.error .unmodelled, log)
+        | .error x => (.ok (.err x.toErr), log ++ [.fn name args])) :=
+  ⟨fun _ h => resolve_custom h, fun _ hc hr hm => resolve_builtin hc hr hm, fun _ _ => rfl⟩
+
+/-- a call expression whose arguments evaluate and whose body produces an error (any of the three
+    ways) evaluates to that error VALUE -/
+theorem call_outcome_error (env : Env) (name : List Char) (kind : SeqKind) (a b : List Expr)
+    (av bv : List Value) (f : HostFn) (e : Err)
+    (ha : outcomes env a = .ok av) (hb : outcomes env b = .ok bv)
+    (hf : resolve env name = some f) (he : yieldsErr (f (seqValues kind av bv)) = some e) :
+    outcome env (.call name kind a b) = .ok (.err e) := by
+  rw [outcome_call, ha, hb]
+  simp only [bind, Except.bind]
+  rw [callFunction_error_is_value hf he]
+
+/-- the value of a call is whatever the body returns, for any arguments — error values among the
+    arguments are handed to the body like any other value -/
+theorem call_outcome_value (env : Env) (name : List Char) (kind : SeqKind) (a b : List Expr)
+    (av bv : List Value) (f : HostFn) (v : Value)
+    (ha : outcomes env a = .ok av) (hb : outcomes env b = .ok bv)
+    (hf : resolve env name = some f) (hv : f (seqValues kind av bv) = .ok v) :
+    outcome env (.call name kind a b) = .ok v := by
+  rw [outcome_call, ha, hb]
+  simp only [bind, Except.bind]
+  rw [callFunction_value hf hv]
+
+/-- every expression `x` that evaluates to an error value `e` — produced by an operator, by a call,
+    by a variable, at any depth inside `x` — is observed by the six traps, provided no custom function
+    shadows them: IFERROR gives the alternative, IFNA the alternative exactly for `#N/A`, ISERROR
+    TRUE, ISERR / ISNA split on `#N/A`, ERROR.TYPE the number of the code -/
+theorem traps_see_values (env : Env) (x y : Expr) (e : Err) (w : Value)
+    (hx : outcome env x = .ok (.err e)) (hy : outcome env y = .ok w)
+    (hs : ∀ n ∈ trapNames, env.custom n = none) :
+    outcome env (.call "IFERROR".toList .flat [x, y] []) = .ok w ∧
+    outcome env (.call "IFNA".toList .flat [x, y] []) = .ok (if e = .na then w else .err e) ∧
+    outcome env (.call "ISERROR".toList .flat [x] []) = .ok (.bool true) ∧
+    outcome env (.call "ISERR".toList .flat [x] []) = .ok (.bool (decide (e ≠ .na))) ∧
+    outcome env (.call "ISNA".toList .flat [x] []) = .ok (.bool (decide (e = .na))) ∧
+    outcome env (.call "ERROR.TYPE".toList .flat [x] []) = .ok (errorTypeValue e) := by
+  have h1 := outcomes_one hx
+  have h2 := outcomes_two hx hy
+  refine ⟨?_, ?_, ?_, ?_, ?_, ?_⟩
+  · rw [outcome_builtin_call (b := IFERROR) (hs _ (by decide)) (by decide) (by rfl) h2]; rfl
+  · rw [outcome_builtin_call (b := IFNA) (hs _ (by decide)) (by decide) (by rfl) h2]
+    cases e <;> rfl
+  · rw [outcome_builtin_call (b := ISERROR) (hs _ (by decide)) (by decide) (by rfl) h1]; rfl
+  · rw [outcome_builtin_call (b := ISERR) (hs _ (by decide)) (by decide) (by rfl) h1]
+    cases e <;> rfl
+  · rw [outcome_builtin_call (b := ISNA) (hs _ (by decide)) (by decide) (by rfl) h1]
+    cases e <;> rfl
+  · rw [outcome_builtin_call (b := ERROR_TYPE) (hs _ (by decide)) (by decide) (by rfl) h1, error_type_spec]
+
+/-- on an expression that evaluates to a value that is not an error the traps let it through:
+    IFERROR / IFNA give the value itself, ISERROR / ISERR / ISNA are FALSE -/
+theorem traps_pass_values (env : Env) (x y : Expr) (v w : Value)
+    (hx : outcome env x = .ok v) (hv : isErr v = none) (hy : outcome env y = .ok w)
+    (hs : ∀ n ∈ trapNames, env.custom n = none) :
+    outcome env (.call "IFERROR".toList .flat [x, y] []) = .ok v ∧
+    outcome env (.call "IFNA".toList .flat [x, y] []) = .ok v ∧
+    outcome env (.call "ISERROR".toList .flat [x] []) = .ok (.bool false) ∧
+    outcome env (.call "ISERR".toList .flat [x] []) = .ok (.bool false) ∧
+    outcome env (.call "ISNA".toList .flat [x] []) = .ok (.bool false) := by
+  have h1 := outcomes_one hx
+  have h2 := outcomes_two hx hy
+  refine ⟨?_, ?_, ?_, ?_, ?_⟩
+  · rw [outcome_builtin_call (b := IFERROR) (hs _ (by decide)) (by decide) (by rfl) h2, iferror_spec, hv]
+  · rw [outcome_builtin_call (b := IFNA) (hs _ (by decide)) (by decide) (by rfl) h2, ifna_spec, hv]; rfl
+  · rw [outcome_builtin_call (b := ISERROR) (hs _ (by decide)) (by decide) (by rfl) h1, iserror_spec, hv]; rfl
+  · rw [outcome_builtin_call (b := ISERR) (hs _ (by decide)) (by decide) (by rfl) h1, iserr_spec, hv]; rfl
+  · rw [outcome_builtin_call (b := ISNA) (hs _ (by decide)) (by decide) (by rfl) h1, isna_spec, hv]; rfl
+
+/-- THE KEY CASE: the trapped expression is a function call whose body RETURNS an error or RAISES
+    one (a custom host function or a registered builtin; e.g. `SUM(1/0)`, whose `inumbers` raises the
+    error it meets).  The call evaluates to the error VALUE, so the traps see it. -/
+theorem traps_see_calls (env : Env) (name : List Char) (kind : SeqKind) (a b : List Expr)
+    (av bv : List Value) (f : HostFn) (e : Err) (y : Expr) (w : Value)
+    (ha : outcomes env a = .ok av) (hb : outcomes env b = .ok bv)
+    (hf : resolve env name = some f) (he : yieldsErr (f (seqValues kind av bv)) = some e)
+    (hy : outcome env y = .ok w) (hs : ∀ n ∈ trapNames, env.custom n = none) :
+    outcome env (.call name kind a b) = .ok (.err e) ∧
+    outcome env (.call "IFERROR".toList .flat [.call name kind a b, y] []) = .ok w ∧
+    outcome env (.call "IFNA".toList .flat [.call name kind a b, y] []) = .ok (if e = .na then w else .err e) ∧
+    outcome env (.call "ISERROR".toList .flat [.call name kind a b] []) = .ok (.bool true) ∧
+    outcome env (.call "ISERR".toList .flat [.call name kind a b] []) = .ok (.bool (decide (e ≠ .na))) ∧
+    outcome env (.call "ISNA".toList .flat [.call name kind a b] []) = .ok (.bool (decide (e = .na))) ∧
+    outcome env (.call "ERROR.TYPE".toList .flat [.call name kind a b] []) = .ok (errorTypeValue e) :=
+  have hc := call_outcome_error env name kind a b av bv f e ha hb hf he
+  ⟨hc, traps_see_values env _ y e w hc hy hs⟩
+
+/-- `F1(F2(…Fn(x)…))` -/
+def wrapCalls (names : List (List Char)) (x : Expr) : Expr :=
+  names.foldr (fun n y => .call n .flat [y] []) x
+
+/-- a one-argument function that hands an error argument on: returns it or raises it -/
+def ErrPreserving (env : Env) (n : List Char) : Prop :=
+  ∃ f, resolve env n = some f ∧ ∀ e, yieldsErr (f [.err e]) = some e
+
+/-- NESTED calls: an error value produced at the bottom of a chain of calls of error-preserving
+    functions (pass-through host functions, builtins that return the error, builtins that raise it)
+    arrives at the top of the chain as the same error VALUE — hence is seen by the traps
+    (`traps_see_values`) and propagated by the operators (`path_propagates`) -/
+theorem nested_calls_carry_errors (env : Env) (names : List (List Char)) (x : Expr) (e : Err)
+    (hn : ∀ n ∈ names, ErrPreserving env n) (hx : outcome env x = .ok (.err e)) :
+    outcome env (wrapCalls names x) = .ok (.err e) := by
+  induction names with
+  | nil => exact hx
+  | cons n ns ih =>
+    obtain ⟨f, hf, hp⟩ := hn n (List.mem_cons_self ..)
+    have ih' := ih (fun m hm => hn m (List.mem_cons_of_mem _ hm))
+    exact call_outcome_error env n .flat [wrapCalls ns x] [] [.err e] [] f e (outcomes_one ih') rfl hf (hp e)
+
+/-! ### concrete formulas (non-vacuity; the cases that were wrong before the repairs) -/
+
+/-- `SUM`, `N` and the host `ID` hand an error argument on (SUM by raising it) -/
+example : ErrPreserving envH "SUM".toList ∧ ErrPreserving envH "N".toList ∧ ErrPreserving envH "ID".toList :=
+  ⟨⟨_, envH_SUM, fun _ => rfl⟩,
+   ⟨_, resolve_builtin (b := Fn.Info.N) (by decide) (by decide) (by rfl), fun _ => rfl⟩,
+   ⟨_, resolve_custom (by rfl), fun _ => rfl⟩⟩
+
+/-- `IFERROR(SUM(1/0), 0)` = 0, `ISERROR(SUM(1/0))`, `ERROR.TYPE(SUM(1/0))` = 2: an error RAISED inside
+    a builtin is trapped -/
+example :
+    outcome envH (.call "IFERROR".toList .flat [.call "SUM".toList .flat [oneByZero] [], zero] []) = .ok (.num (.int 0)) ∧
+    outcome envH (.call "ISERROR".toList .flat [.call "SUM".toList .flat [oneByZero] []] []) = .ok (.bool true) ∧
+    outcome envH (.call "ERROR.TYPE".toList .flat [.call "SUM".toList .flat [oneByZero] []] []) = .ok (.num (.int 2)) := by
+  have h := traps_see_calls envH "SUM".toList .flat [oneByZero] [] [.err .div0] [] _ .div0 zero (.num (.int 0))
+    (outcomes_one (outcome_oneByZero envH)) rfl envH_SUM rfl rfl envH_no_shadow
+  exact ⟨h.2.1, h.2.2.2.1, h.2.2.2.2.2.2⟩
+
+/-- `IFERROR(RAISE_NUM(), 0)` = 0 and `IFERROR(PYRAISE(), 0)` = 0; `ERROR.TYPE(RAISE_NUM())` = 6;
+    `PYRAISE()` itself is the VALUE `#ERROR!` -/
+example :
+    outcome envH (.call "IFERROR".toList .flat [.call "RAISE_NUM".toList .empty [] [], zero] []) = .ok (.num (.int 0)) ∧
+    outcome envH (.call "ERROR.TYPE".toList .flat [.call "RAISE_NUM".toList .empty [] []] []) = .ok (.num (.int 6)) ∧
+    outcome envH (.call "IFERROR".toList .flat [.call "PYRAISE".toList .empty [] [], zero] []) = .ok (.num (.int 0)) ∧
+    outcome envH (.call "PYRAISE".toList .empty [] []) = .ok (.err .error) := by
+  have h1 := traps_see_calls envH "RAISE_NUM".toList .empty [] [] [] [] _ .num zero (.num (.int 0))
+    rfl rfl (resolve_custom (by rfl)) rfl rfl envH_no_shadow
+  have h2 := traps_see_calls envH "PYRAISE".toList .empty [] [] [] [] _ .error zero (.num (.int 0))
+    rfl rfl (resolve_custom (by rfl)) (by decide) rfl envH_no_shadow
+  exact ⟨h1.2.1, h1.2.2.2.2.2.2, h2.2.1, h2.1⟩
+
+/-- `ISERROR(ID(N(SUM(1/0))))`: the error crosses three nested calls -/
+example : outcome envH (.call "ISERROR".toList .flat [wrapCalls ["ID".toList, "N".toList, "SUM".toList] oneByZero] [])
+    = .ok (.bool true) := by
+  have h := nested_calls_carry_errors envH ["ID".toList, "N".toList, "SUM".toList] oneByZero .div0
+    (by
+      intro n hn
+      simp only [List.mem_cons, List.not_mem_nil, or_false] at hn
+      rcases hn with rfl | rfl | rfl
+      · exact ⟨_, resolve_custom (by rfl), fun _ => rfl⟩
+      · exact ⟨_, resolve_builtin (b := Fn.Info.N) (by decide) (by decide) (by rfl), fun _ => rfl⟩
+      · exact ⟨_, envH_SUM, fun _ => rfl⟩)
+    (outcome_oneByZero envH)
+  exact (traps_see_values envH _ zero .div0 _ h rfl envH_no_shadow).2.2.1
+
+/-! whole formulas through the lexer, the parser, the evaluator and `finish` -/
+
+/-- `(1/0)=1` reports `#DIV/0!` (was: FALSE) -/
+example : (parseTop Env.empty "(1/0)=1".toList).1 = { result := none, error := some .div0 } := by
+  refine parse_reports_error Env.empty _ (.bin .eq oneByZero one) .div0 (by decide) (parse_eq_of_beq (by decide +kernel)) (Or.inl ?_)
+  rw [outcome_bin, outcome_oneByZero]; rfl
+
+/-- `(1/0)&"a"` reports `#DIV/0!` (was: the text `#DIV/0!a`) -/
+example : (parseTop Env.empty "(1/0)&\"a\"".toList).1 = { result := none, error := some .div0 } := by
+  refine parse_reports_error Env.empty _ (.bin .amp oneByZero (.str ['a'])) .div0 (by decide) (parse_eq_of_beq (by decide +kernel)) (Or.inl ?_)
+  rw [outcome_bin, outcome_oneByZero]; rfl
+
+/-- `-(1/0)` reports `#DIV/0!` (was: `#ERROR!` from a TypeError) -/
+example : (parseTop Env.empty "-(1/0)".toList).1 = { result := none, error := some .div0 } := by
+  refine parse_reports_error Env.empty _ (.neg oneByZero) .div0 (by decide) (parse_eq_of_beq (by decide +kernel)) (Or.inl ?_)
+  rw [outcome_neg, outcome_oneByZero]; rfl
+
+/-- `IFERROR(SUM(1/0),0)` is 0 (was: `#DIV/0!` raised through the parser) -/
+example : (parseTop Env.empty "IFERROR(SUM(1/0),0)".toList).1 = { result := some (.num (.int 0)), error := none } := by
+  rw [parseTop_record Env.empty _
+    (.call "IFERROR".toList .flat [.call "SUM".toList .flat [oneByZero] [], zero] []) (by decide)
+    (parse_eq_of_beq (by decide +kernel))]
+  have h := traps_see_calls Env.empty "SUM".toList .flat [oneByZero] [] [.err .div0] [] _ .div0 zero (.num (.int 0))
+    (outcomes_one (outcome_oneByZero _)) rfl
+    (resolve_builtin (b := Fn.Agg.SUM) rfl (by decide) (by rfl)) rfl rfl (fun _ _ => rfl)
+  rw [h.2.1]; rfl
+
+/-- `#N/A+1` reports `#N/A`: the literal raises -/
+example : (parseTop Env.empty "#N/A+1".toList).1 = { result := none, error := some .na } := by
+  refine parse_reports_error Env.empty _ (.bin .add (.errLit "#N/A".toList) one) .na (by decide) (parse_eq_of_beq (by decide +kernel)) (Or.inr ?_)
+  have hna : throwErrorLit "#N/A".toList = .xl .na := literal_of_code .na
+  rw [outcome_bin, outcome_errLit, hna]; rfl
+
+/-- `(1/0)+#N/A` reports `#N/A`, not `#DIV/0!`: the raise of the literal on the right beats the error
+    VALUE already computed on the left (`abort_propagates`; `path_propagates` does not apply since the
+    right sibling does not evaluate to a value) -/
+example : (parseTop Env.empty "(1/0)+#N/A".toList).1 = { result := none, error := some .na } := by
+  refine parse_reports_error Env.empty _ (.bin .add oneByZero (.errLit "#N/A".toList)) .na (by decide)
+    (parse_eq_of_beq (by decide +kernel)) (Or.inr ?_)
+  have hna : throwErrorLit "#N/A".toList = .xl .na := literal_of_code .na
+  rw [outcome_bin, outcome_oneByZero, outcome_errLit, hna]; rfl
+
+/-- `IFERROR(#N/A,1)` reports `#N/A` and not 1: an error LITERAL aborts the formula before IFERROR is
+    called (no event is logged) -/
+example : parseTop Env.empty "IFERROR(#N/A,1)".toList = ({ result := none, error := some .na }, []) := by
+  have hp : parseFormula "IFERROR(#N/A,1)".toList
+      = .ok (.call "IFERROR".toList .flat [.errLit "#N/A".toList, one] []) :=
+    parse_eq_of_beq (by decide +kernel)
+  have h : evalExpr Env.empty (.call "IFERROR".toList .flat [.errLit "#N/A".toList, one] []) []
+      = (.error (throwErrorLit "#N/A".toList), []) :=
+    literal_aborts_formula Env.empty (.callA "IFERROR".toList .flat [] .hole [one] []) "#N/A".toList
+      ⟨⟨[], rfl⟩, trivial⟩ []
+  have hna : throwErrorLit "#N/A".toList = .xl .na := literal_of_code .na
+  rw [parseTop_eq Env.empty _ _ (by decide) hp, h, hna, top_level_raised]
+
+/-- `IFERROR(NA(),1)` is 1 — the error VALUE returned by `NA()` is trapped — with both calls logged -/
+example : parseTop Env.empty "IFERROR(NA(),1)".toList =
+    ({ result := some (.num (.int 1)), error := none },
+     [.fn "NA".toList [], .fn "IFERROR".toList [.err .na, .num (.int 1)]]) := by
+  have hp : parseFormula "IFERROR(NA(),1)".toList = .ok (.call "IFERROR".toList .flat [naCall, one] []) :=
+    parse_eq_of_beq (by decide +kernel)
+  rw [parseTop_eq Env.empty _ _ (by decide) hp]
+  rfl
 
 end HotXL.Props.C08
